@@ -126,6 +126,7 @@ type vlProc struct {
 	modsBlocked    int // modifications in flight that were issued while the backend was frozen
 	lastMod        backend.Handle
 	lifted         bool
+	lost           bool // the lock code reported "failed to refresh stale lock"
 }
 
 // vlSpy sits on top of the connection limiting backend of a process and sees Freeze / Unfreeze.
@@ -251,7 +252,9 @@ func (b *vlBE) recordMod(ctx context.Context) {
 	if b.e.drain {
 		return
 	}
-	b.e.mods = append(b.e.mods, []int64{int64(b.p.idx), b.e.ms(), vlB(ctx.Err() != nil), vlB(b.p.modsBlocked > 0)})
+	// "cancelled": the lock context is cancelled, or the lock code has already reported that its forced refresh
+	// failed (it cancels the context right after that report, before it unfreezes the backend)
+	b.e.mods = append(b.e.mods, []int64{int64(b.p.idx), b.e.ms(), vlB(ctx.Err() != nil || b.p.lost), vlB(b.p.modsBlocked > 0)})
 }
 
 func (b *vlBE) Save(ctx context.Context, h backend.Handle, rd backend.RewindReader) error {
@@ -724,6 +727,9 @@ func (e *vlEnv) logf(p *vlProc) func(string, ...any) {
 	return func(f string, a ...any) {
 		e.mu.Lock()
 		defer e.mu.Unlock()
+		if strings.HasPrefix(strings.TrimSpace(fmt.Sprintf(f, a...)), "failed to refresh stale lock") {
+			p.lost = true
+		}
 		if len(p.logs) < 20 {
 			p.logs = append(p.logs, fmt.Sprintf("%d:", e.ms())+strings.TrimSpace(fmt.Sprintf(f, a...)))
 		}
